@@ -438,23 +438,30 @@ def storeMetadata (s : State) (m : Metadata) : State :=
   let s := emit s (.metadataRecv m.srcName m.dstName m.fileSize (nMsgs m))
   { s with md := some (metaOf m) }
 
+/-- unacknowledged mode, EOF accepted: finalise, then Finished PDU (closure) or the end -/
+def unackFinish (s : State) (now : Nat) : State :=
+  let g := finalizeReceive s now
+  let s := g.1
+  if closureRequested s then
+    prepareFinished { s with recvState := .Finished } (if s.condition == .NoError then none else some s.cfg.dst)
+  else shutdown s now
+
+/-- unacknowledged mode: a NoError EOF reaching a transaction that is still receiving -/
+def unackEofNoError (s : State) (e : Eof) (now : Nat) : State :=
+  let s := checkFileSize s e.fileSize now
+  let s := { s with fileSize := some e.fileSize }
+  -- without acknowledgements what is missing cannot be asked for again
+  let f :=
+    if s.md.isNone || (isFileTransfer s && hasNaks s) then handleFault s .CheckLimitReached now
+    else (s, true)
+  if !f.2 then f.1 else unackFinish f.1 now
+
 /-- unacknowledged mode: EOF -/
 def unackEof (s : State) (e : Eof) (now : Nat) : State :=
   let s := { s with condition := e.cond, checksum := some e.checksum }
   let s := emit s .eofRecv
   if s.recvState != .ReceiveData then setFinishedFlag s true
-  else if s.condition == .NoError then
-    let s := checkFileSize s e.fileSize now
-    let s := { s with fileSize := some e.fileSize }
-    let f :=
-      if s.md.isNone || (isFileTransfer s && hasNaks s) then handleFault s .CheckLimitReached now
-      else (s, true)
-    if !f.2 then f.1 else
-    let g := finalizeReceive f.1 now
-    let s := g.1
-    if closureRequested s then
-      prepareFinished { s with recvState := .Finished } (if s.condition == .NoError then none else some s.cfg.dst)
-    else shutdown s now
+  else if s.condition == .NoError then unackEofNoError s e now
   else cancelInner s now
 
 /-- the rest of `process_pdu` -/
